@@ -146,7 +146,7 @@ def sharing_keys(repo, col, R):
                           f"`{unparse(c)[:60]}`: '{lit}' is not one of the kinds {sorted(known)} that _set_controlled_by_param numbers; it falls "
                           f"through to the branch that puts everything in view into ONE sharing group, so make_trainable on this selection "
                           f"creates a single parameter for all selected rows", node=c)
-    if n_calls < 5:
+    if n_calls < 1:
         raise AnalysisError(f"only {n_calls} calls of _set_controlled_by_param found")
 
 
